@@ -2257,6 +2257,73 @@ func attrsGroupLikeCases() [][]string {
 	return cases
 }
 
+// attrsGroupLikeNameCases: directed family for the NAME test of group-likeness. The runtime's isGroupLike
+// wants the field name to be exactly the lower-cased message name; here the two names match exactly, match
+// only when case is ignored, contain digits / underscores, or do not match, for delimited fields (feature on
+// the field, inherited from the file) of edition 2023 and for proto2 groups and plain proto2 message fields,
+// with the type in the field's scope, in a sibling message, nested deeper, or in another file, as plain field,
+// repeated field, oneof member and extension.
+func attrsGroupLikeNameCases() [][]string {
+	pairs := [][2]string{ // field name, type name
+		{"item", "Item"}, {"iTem", "Item"}, {"ITEM", "Item"}, {"item", "ITEM"}, {"Item", "ITEM"}, {"iTEM", "ITEM"},
+		{"item_1", "Item_1"}, {"iTEM_1", "Item_1"}, {"item1", "Item1"}, {"iTem1", "Item1"}, {"ITEM1", "Item1"},
+		{"data", "DATA"}, {"Data", "DATA"}, {"dATA", "Data"},
+		{"other", "Item"}, {"items", "Item"}, {"ite", "Item"}, {"item_", "Item"}, {"_item", "Item"},
+	}
+	types := []string{"Item", "ITEM", "Item_1", "Item1", "DATA", "Data"}
+	var cases [][]string
+	var dep strings.Builder
+	dep.WriteString("edition = \"2023\";\npackage gdn;\n")
+	for _, t := range types {
+		dep.WriteString("message " + t + " {}\n")
+	}
+	for _, fileLevel := range []bool{false, true} {
+		d := " [features.message_encoding = DELIMITED]"
+		opt := ""
+		if fileLevel {
+			d, opt = "", "option features.message_encoding = DELIMITED;\n"
+		}
+		var b strings.Builder
+		b.WriteString("edition = \"2023\";\npackage gn;\nimport \"gndep.proto\";\n" + opt)
+		b.WriteString("message Holder {")
+		for _, t := range types {
+			b.WriteString(" message " + t + " {}")
+		}
+		b.WriteString(" }\nmessage Ext { extensions 1 to max; }\n")
+		xn := 1
+		for i, p := range pairs {
+			f, t := p[0], p[1]
+			// type in the field's own scope: plain, repeated, oneof member, extension
+			b.WriteString(fmt.Sprintf("message A%d { message %s {} %s %s = 1%s; }\n", i, t, t, f, d))
+			b.WriteString(fmt.Sprintf("message B%d { message %s {} repeated %s %s = 1%s; }\n", i, t, t, f, d))
+			b.WriteString(fmt.Sprintf("message C%d { message %s {} oneof o { %s %s = 1%s; int32 z = 2; } }\n", i, t, t, f, d))
+			b.WriteString(fmt.Sprintf("message D%d { message %s {} extend Ext { %s %s = %d%s; } }\n", i, t, t, f, xn, d))
+			xn++
+			// type elsewhere: sibling message, nested deeper, other file
+			b.WriteString(fmt.Sprintf("message E%d { Holder.%s %s = 1%s; }\n", i, t, f, d))
+			b.WriteString(fmt.Sprintf("message F%d { message In { message %s {} } In.%s %s = 1%s; oneof o { In.%s %s_2 = 2%s; } }\n", i, t, t, f, d, t, f, d))
+			b.WriteString(fmt.Sprintf("message G%d { .gdn.%s %s = 1%s; message X { extend Ext { .gdn.%s %s = %d%s; } } }\n", i, t, f, d, t, f, xn, d))
+			xn++
+		}
+		cases = append(cases, attrsCase(map[string]string{"gndep.proto": dep.String(), "gn.proto": b.String()},
+			[]string{"gndep.proto", "gn.proto"}, false))
+	}
+	// proto2: real groups (the parser derives the field name), and plain message fields with group-shaped names
+	var p2 strings.Builder
+	p2.WriteString("syntax = \"proto2\";\npackage gn2;\nmessage Ext { extensions 1 to max; }\n")
+	for i, t := range []string{"Item", "ITEM", "Item_1", "Item1", "DATA", "I"} {
+		p2.WriteString(fmt.Sprintf("message A%d { optional group %s = 1 { optional int32 z = 1; } }\n", i, t))
+		p2.WriteString(fmt.Sprintf("message B%d { repeated group %s = 1 { optional int32 z = 1; } }\n", i, t))
+		p2.WriteString(fmt.Sprintf("message C%d { oneof o { group %s = 1 { optional int32 z = 1; } int32 y = 2; } }\n", i, t))
+		p2.WriteString(fmt.Sprintf("message D%d { extend Ext { optional group %s = %d { optional int32 z = 1; } } }\n", i, t, i+1))
+	}
+	for i, p := range pairs {
+		p2.WriteString(fmt.Sprintf("message P%d { message %s {} optional %s %s = 1; oneof o { %s %s_2 = 2; } }\n", i, p[1], p[1], p[0], p[1], p[0]))
+	}
+	cases = append(cases, attrsCase(map[string]string{"gn2.proto": p2.String()}, []string{"gn2.proto"}, false))
+	return cases
+}
+
 func (e *attrsEngine) Gen(r *Rand, tier string) [][]string {
 	g := &attrsGGen{r: r}
 	var cases [][]string
@@ -2310,6 +2377,7 @@ func (e *attrsEngine) Gen(r *Rand, tier string) [][]string {
 	cases = append(cases, attrsRawDefaultCases(r, nraw)...)
 	// 0c. directed: where the message type of a delimited field is declared (TextName / group-likeness)
 	cases = append(cases, attrsGroupLikeCases()...)
+	cases = append(cases, attrsGroupLikeNameCases()...)
 	// 1. systematic: every valid field shape under proto2, proto3 and editions with file-level overrides
 	cases = append(cases, g.systematicCase("proto2", attrsGNoFeat(), thorough))
 	cases = append(cases, g.systematicCase("proto3", attrsGNoFeat(), thorough))
